@@ -277,6 +277,67 @@ static void selfdestroy_scenario(int nworkers, bool other_job) {
     }
 }
 
+// a thread that is not one of the pool's own joins through the public worker() entry point ("current thread becomes a worker
+// until stop() is called"): jobs may run on it, stop() must release it as well, and it returns to its caller
+static void addworker_scenario(int nworkers, int njobs, int stopmode) {
+    int64_t *s = vrt_scratch();
+    {
+        std::unique_ptr<cocls::future<int>> res;
+        auto pool = std::make_unique<cocls::thread_pool>((unsigned)nworkers);
+        cocls::thread_pool &P = *pool;
+        vstd::thread extra([&] {
+            vrt_label("added-worker");
+            P.worker();
+            vrt_scratch()[S_STOPRET + 1]++;
+        });
+        if (njobs >= 1) job_coawait(P, 0).detach();
+        if (njobs >= 2)
+            res.reset(new cocls::future<int>(P.run([g = ClosureGuard(1)] {
+                mark_ran(1);
+                return 7;
+            })));
+        if (stopmode == ST_SELF) {
+            P.run_detached([&P] {
+                P.stop();
+                vrt_scratch()[S_STOPRET]++;
+            });
+            vrt_label("main-wait-selfstop");
+            while (!s[S_STOPRET]) vrt_yield();
+        } else {
+            vrt_label("main-stop");
+            P.stop();
+        }
+        vrt_label("main-join-added-worker");
+        extra.join();  // worker() returns once the pool is stopped
+        vrt_label("main");
+        VRT_CHECK(s[S_STOPRET + 1] == 1, "pool/added-worker-not-released", "worker() did not return after stop()");
+        if (njobs >= 1) {
+            vrt_label(lost_labels[K_COAWAIT]);
+            while (!s[S_RAN] && !s[S_CANC]) vrt_yield();
+        }
+        if (njobs >= 2) {
+            vrt_label(lost_labels[K_RUNFN]);
+            while (!res->ready()) vrt_yield();
+            if (res->has_value()) {
+                if (!s[S_RAN + 1]) vrt_fail("pool/value-without-run", "future has a value but the job never ran");
+            } else
+                mark_cancelled(1);
+        }
+        vrt_label("main");
+        for (int i = 0; i < njobs; i++) {
+            VRT_CHECK(s[S_RAN + i] + s[S_CANC + i] == 1, "pool/ran-and-cancelled", "job %d: ran=%ld cancelled=%ld", i, (long)s[S_RAN + i], (long)s[S_CANC + i]);
+            if (s[S_RAN + i]) VRT_CHECK(s[S_TID + i] >= 1 && s[S_TID + i] <= nworkers + 1, "pool/ran-outside-pool", "job %d ran on thread %ld which is not a worker", i, (long)s[S_TID + i]);
+        }
+        vrt_label("main-destroy-pool");
+        pool.reset();
+        vrt_label("main-wait-closures");
+        while (s[S_CLOS + 1] > 0) vrt_yield();
+        vrt_label("main");
+        res.reset();
+        vrt_outcome("ran=%ld,%ld", (long)s[S_RAN], (long)s[S_RAN + 1]);
+    }
+}
+
 // a job on pool A creates, uses and destroys a helper pool B: A's worker must stay a worker of A and serve what follows
 static void two_pools_scenario(int how) {
     int64_t *s = vrt_scratch();
@@ -362,6 +423,9 @@ VRT_REGISTER(reg_pool) {
             for (int how = 0; how < 2; how++) vrt::add(std::string("pool_w1_live_twopools_") + (how ? "stop" : "dtor"), [=] { two_pools_scenario(how); });
         vrt::add("pool_w" + std::to_string(w) + "_live_coawaitfut-concurrent", [=] { coawait_fut_concurrent(w); });
     }
+    for (int w = 1; w <= 2; w++)
+        for (int n = 0; n <= 2; n++)
+            for (int st : {ST_STOP, ST_SELF}) vrt::add("pool_w" + std::to_string(w) + "_addworker_j" + std::to_string(n) + "_" + stop_names[st], [=] { addworker_scenario(w, n, st); });
     for (int w = 2; w <= 3; w++)
         for (int k = 0; k < 2; k++) vrt::add("pool_w" + std::to_string(w) + "_dependent_" + (k ? "run" : "detached"), [=] { dependent_scenario(w, k); });
     for (int w = 1; w <= 3; w++)
